@@ -1,6 +1,7 @@
 import Hgxv.Model.Wire
 import Hgxv.Model.C04
 import Hgxv.Model.C04Spec
+import Hgxv.Model.C04Dump
 /-! Line protocol for C04.  State: one concrete `Store` and, next to it, the abstract `Spec` driven by the same
 operations.  Every answer is computed from BOTH; listings are rendered as `|`-separated items (fields `;`,
 numbers `,`, empty field `_`, empty listing `-`) and sorted as strings.  If the two renderings differ the
@@ -16,7 +17,10 @@ Queries:
   nodes | nodesmeta | edges | edgesmeta | weights | weight <raw> <L> | emeta <raw> <L> | incident <n> <f> |
   degree <n> <f> | degseq <f> | layers | inuse | hmeta | layermeta <L> | dsmeta | weighted |
   aggnodes | aggedges | agghmeta | aggweighted | overlap <raw>
-  filter f: `a` (none), `s<k>` (size=k), `o<k>` (order=k), `b` (both given). -/
+  filter f: `a` (none), `s<k>` (size=k), `o<k>` (order=k), `b` (both given).
+Round d:  `reload` = the store goes through `expose` / `loadDump` (binary save + load, pickle of the tables); the `Spec` stays
+as it is, so anything the loader drops shows as SPEC-MISMATCH in the answers that follow.  Queries `dumpkeys` (names of the
+serialisation dict) and `overlapin <raw> <order>` (the overlap summed in the order in which the real set of layers iterates). -/
 open Wire C04
 
 structure St where
@@ -136,6 +140,10 @@ def answer (st : St) : List String → Option (String × String)
   | ["overlap", raw] => do
     let r ← nats? raw
     some (toString (overlap st.s r), toString (st.sp.overlap r))
+  | ["overlapin", raw, order] => do
+    let r ← nats? raw; let o ← nats? order
+    some (toString (overlapIn st.s o r), toString (st.sp.overlap r))
+  | ["dumpkeys"] => some (items (dumpKeys st.s), items (dumpKeys st.s))
   | _ => none
 
 def both (a b : String) : String := if a = b then a else "SPEC-MISMATCH store=" ++ a ++ " spec=" ++ b
@@ -146,6 +154,10 @@ def step (st : St) (toks : List String) : St × String :=
     match bool? w, meta? hm with
     | some w, some hm => ({ s := C04.init w hm, sp := Spec.init w hm }, "ok")
     | _, _ => (st, "bad-op")
+  | ["reload"] =>
+    match loadDump (expose st.s) with
+    | some s' => ({ st with s := s' }, "ok")
+    | none => (st, "rej")
   | "q" :: q =>
     match answer st q with
     | some (a, b) => (st, both a b)
